@@ -61,7 +61,7 @@ func signClass(h string) string {
 	switch h {
 	case "ff", "hi":
 		return "negative"
-	case "max31", "strcap1", "big16", "cap1":
+	case "max31", "strcap1", "big16", "cap1", "strcap", "mid":
 		return "huge"
 	}
 	return "offbyone"
